@@ -168,7 +168,9 @@ class Body:
 
     def succ(self, b):
         if self._succ is None:
-            self._succ = [[s for s in self.raw_succ(i) if not self.is_cleanup(s)] if not self.is_cleanup(i) else []
+            # edges into cleanup blocks and into `unreachable` blocks (the otherwise-arm of exhaustive switches) are not real
+            dead = {i for i, b in enumerate(self.blocks) if b["term"]["t"] == "unreachable"}
+            self._succ = [[s for s in self.raw_succ(i) if not self.is_cleanup(s) and s not in dead] if not self.is_cleanup(i) else []
                           for i in range(len(self.blocks))]
         return self._succ[b]
 
